@@ -30,13 +30,17 @@ bad = False
 if case["kind"] == "beam":
     print("nodal errors per unknown", r["err"], "scale", r["scale"])
     print("relative errors of the reported constants", r["post"])
-    bad = max(r["err"].values()) > 1e-9 * r["scale"] or max(list(r["post"].values()) + [0.0]) > 1e-9
+    print("errors relative to the largest translation / rotation", r["err_rel"])
+    bad = max(r["err_rel"].values()) > 1e-9 or max(list(r["post"].values()) + [0.0]) > 1e-9
 else:
     print("interior nodes:", r["n_interior"], " max |u - u_lin| =", r["err_u_interior"], " scale", r["scale_u"])
     bad = not (r["err_u_interior"] <= 1e-9 * r["scale_u"])
+    if "energy" in r:
+        print("u'Ku of the linear field", r["energy"], "exact thickness*measure*density", r["energy_exact"], " residual at interior dofs / scale", r["residual_interior"] / r["residual_scale"])
+        bad = bad or abs(r["energy"] - r["energy_exact"]) > 1e-9 * abs(r["energy_exact"]) or r["residual_interior"] > 1e-9 * r["residual_scale"]
     pre = r.get("pre") or {}
     for mv, sp in pre.get("moves_log", []):
-        if sp > 3e-12:
+        if sp > 1e-12:
             print("after Mesh move", mv, ": groups disagree on the node coordinates by", sp); bad = True
     for lg in ("queries_log", "queries_log_after_solve"):
         for q, ch, e in pre.get(lg, []):
@@ -45,7 +49,7 @@ else:
     if "requery_err_u" in r:
         print("patch test repeated after the read-only queries: nodes", r["requery_err_u"], "strain", r["requery_err_strain"], "coordinates changed by", r["requery_coord_change"])
         bad = bad or r["requery_err_u"] > 1e-9 * r["scale_u"] or r["requery_coord_change"] != 0.0
-    if case["phys"] == "elastic":
+    if case["phys"] == "elastic" and not r.get("assemble_only"):
         print("strain error", r["err_strain_comp"], "scale", r["scale_strain"], "| stress error", r["err_stress_comp"], "scale", r["scale_stress"],
               "| Wdef", r["Wdef"], "exact", r["Wdef_exact"])
         bad = bad or r["err_strain_comp"] > 1e-9 * r["scale_strain"] or r["err_stress_comp"] > 1e-9 * r["scale_stress"] \
@@ -167,6 +171,9 @@ def gen_cases(ctx, E):
                         B[i][i] = 1.0
                     return [k, B]
                 c["moves"] = [move() for _ in range(rng.randint(1, 3))]
+                if rng.random() < 0.6:
+                    # scaled twin: change of length unit (nano / micro / kilo) through the coordinate setter
+                    c["moves"].insert(rng.randrange(len(c["moves"]) + 1), ["scale", rng.choice([1e-9, 1e-6, 1e3])])
                 if not any(m[0] == "mirror" for m in c["moves"]) and rng.random() < 0.5:
                     c["moves"].insert(rng.randrange(len(c["moves"]) + 1), ["mirror", unit(dim)])
                 c["queries"] = True
@@ -189,6 +196,38 @@ def gen_cases(ctx, E):
         lw, par = law(2)
         cases.append({"kind": "mixed", "elem": "QUAD4+TRI3", "nx": 4, "ny": 3, "L": 2.0, "H": 1.0, "A": A, "b": b, "perm_seed": rng.randrange(10**6),
                       "field_seed": rng.randrange(10**6), "phys": "elastic", "law": lw, "params": par})
+    # mixed-group meshes x model options: thermal with thickness != 1 (elastic above has a random thickness)
+    for _ in range(1 if quick else 3):
+        A, b = affine(2)
+        cases.append({"kind": "mixed", "elem": "QUAD4+TRI3", "nx": 4, "ny": 3, "L": 2.0, "H": 1.0, "A": A, "b": b, "perm_seed": rng.randrange(10**6),
+                      "field_seed": rng.randrange(10**6), "phys": "thermal", "params": {"k": rng.uniform(0.5, 5), "c": 1.0, "thickness": round(rng.uniform(0.3, 0.8), 3)}})
+    # embedded lower-dimensional elements (tilted plates, inclined rods) at unit, micro and nano scale
+    import math
+    def rot():
+        a_, b_ = rng.uniform(0.3, 1.2), rng.uniform(0.3, 1.2)
+        Rx = [[1, 0, 0], [0, math.cos(a_), -math.sin(a_)], [0, math.sin(a_), math.cos(a_)]]
+        Rz = [[math.cos(b_), -math.sin(b_), 0], [math.sin(b_), math.cos(b_), 0], [0, 0, 1]]
+        return {"R": [[sum(Rx[i][k] * Rz[k][j] for k in range(3)) for j in range(3)] for i in range(3)], "t": [rng.uniform(-1, 1) for _ in range(3)]}
+    def cuts(n, L):
+        cc = sorted(rng.uniform(0.15, 0.85) for _ in range(n - 1))
+        return [0.0] + [round(L * (0.1 + 0.8 * x), 4) for x in cc] + [L]
+    for et, (nx, ny) in (("QUAD4", (4, 3)), ("TRI3", (3, 3)), ("TRI6", (3, 2)), ("SEG2", (5, 0)), ("SEG3", (4, 0))):
+        for sc in ([None, 1e-7, 1e-9] if quick else [None, 1e-6, 1e-7, 1e-8, 1e-9, 1e3]):
+            for emb in (True, False):
+                if not emb and sc is None:
+                    continue
+                cases.append({"kind": "grid", "elem": et, "xs": cuts(nx, 2.0), "ys": cuts(ny, 1.0) if ny else None, "zs": None,
+                              "embed": rot() if emb else None, "scale": sc, "phys": "thermal", "field_seed": rng.randrange(10**6),
+                              "params": {"k": rng.uniform(0.5, 5), "c": 1.0, "thickness": round(rng.uniform(0.3, 0.8), 3)}})
+    # index arithmetic of the assembly: more than 46341 dofs (46341^2 > 2^31), assembled operator examined
+    # without a solve (residual of the linear field at interior dofs, energy)
+    A, b = affine(2)
+    cases.append({"kind": "gmsh", "elem": "TRI3", "dim": 2, "L": 2.0, "H": 1.0, "size": 0.0068, "A": A, "b": b, "large": True, "assemble_only": True,
+                  "perm_seed": rng.randrange(10**6), "field_seed": rng.randrange(10**6), "phys": "thermal", "params": {"k": 2.0, "c": 1.0, "thickness": 0.6}})
+    A, b = affine(2)
+    cases.append({"kind": "gmsh", "elem": "TRI3", "dim": 2, "L": 2.0, "H": 1.0, "size": 0.0098, "A": A, "b": b, "large": True, "assemble_only": True,
+                  "perm_seed": rng.randrange(10**6), "field_seed": rng.randrange(10**6), "phys": "elastic", "law": "isotropic",
+                  "params": {"E": 210.0, "v": 0.3, "planeStress": True, "thickness": 0.6}})
     # LARGE meshes: "to round-off for every mesh" — the size is part of the quantifier (solver paths
     # may depend on the number of unknowns).  2-D: > 25000 unknowns of the reduced system each.
     A, b = affine(2)
@@ -219,6 +258,9 @@ def gen_cases(ctx, E):
                         "E": rng.uniform(100, 300), "v": 0.3, "axial": sg(5e-4, 2e-3), "curv": sg(5e-4, 3e-3),
                         "curv_y": sg(5e-4, 3e-3), "twist": sg(5e-4, 3e-3)}
                 cases.append(dict(base, L=rng.uniform(5, 15), orient="x-axis"))
+                if et in ("SEG2", "SEG3") or not quick:
+                    sb = rng.choice([1e-9, 1e-6])       # (x1000 beams: see C02, blocked by an absolute tolerance in _Beam.section)
+                    cases.append(dict(base, L=rng.uniform(5, 15), orient="x-axis:x%g" % sb, scale=sb))
                 if bd >= 2:
                     # inclined in the plane / in space; for dim 3 also a user yAxis not perpendicular to the fibre
                     p1 = [rng.uniform(-1, 1), rng.uniform(-1, 1), rng.uniform(-1, 1) if bd == 3 else 0.0]
@@ -227,6 +269,9 @@ def gen_cases(ctx, E):
                     if bd == 3 and rng.random() < 0.5:
                         c["yAxis"] = [rng.uniform(-1, 1), rng.uniform(0.5, 1.5), rng.uniform(-1, 1)]
                         c["orient"] = "inclined-user-yAxis"
+                    if rng.random() < 0.5:
+                        c["scale"] = rng.choice([1e-9, 1e-6])
+                        c["orient"] += ":x%g" % c["scale"]
                     cases.append(c)
     return cases
 
@@ -280,6 +325,15 @@ def run(ctx):
             return
         rule_res["rule"] = ctx.coq(["C01_rule.v"], timeout=600)
         if rule_res["rule"].ok:
+            geo = ["SEG2", "TRI3", "QUAD4", "TETRA4"] + (["PRISM6", "HEXA8"] if ctx.tier == "thorough" else [])
+            geo = [n for n in geo if n in E]
+            open(os.path.join(ctx.build, "Gen_RulePlan.v"), "w").write(
+                "From Coq Require Import List String.\nImport ListNotations. Open Scope string_scope.\nDefinition geo_types : list string := [%s].\n" % "; ".join('"%s"' % n for n in geo))
+            ctx.copy_props("C01/C01_rule_geo.v")
+            ctx.coq(["Gen_RulePlan.v"], timeout=60, count=False)
+            rule_res["geo"] = ctx.coq(["C01_rule_geo.v"], timeout=1200)
+            rule_res["geo_types"] = geo
+        if rule_res["rule"].ok:
             try:
                 from translator import hermite as T_herm
                 open(os.path.join(ctx.build, "Gen_Hermite.v"), "w").write(T_herm.emit_coq(T_herm.read_hermite(ctx.repo, E)))
@@ -311,17 +365,34 @@ def run(ctx):
         ctx.violation("proof-broken:C01_patch.v", "C01_patch.v no longer checks", {"obligation": "C01_patch.v", "log": r2.log[-3000:]}, found_input=False)
     # ---------------- correspondence ----------------
     cases = gen_cases(ctx, E)
-    rc, out, err = ctx.impl_python(os.path.join(common.VERIF, "corr", "C01_impl.py"), input=json.dumps({"cases": cases}), timeout=1500)
-    if rc != 0 or "@@JSON@@" not in out:
-        ctx.obligation("impl-run", False, err[-1500:])
-        ctx.violation("impl-run", "the implementation-side harness failed: " + (err.strip().splitlines() or ["?"])[-1][:200], {"stderr": err[-3000:]}, found_input=False)
-        return
-    results = json.loads(out.split("@@JSON@@")[1])["results"]
+    # two harness processes side by side (the large cases in the second one)
+    order = sorted(range(len(cases)), key=lambda i: (1 if cases[i].get("large") else 0))
+    half_a = [i for k, i in enumerate(order) if not cases[i].get("large") and k % 4 != 3]
+    half_b = [i for i in order if i not in set(half_a)]
+    outs = {}
+
+    def run_half(tag, idx):
+        outs[tag] = ctx.impl_python(os.path.join(common.VERIF, "corr", "C01_impl.py"), input=json.dumps({"cases": [cases[i] for i in idx]}), timeout=2400)
+    tb = threading.Thread(target=run_half, args=("b", half_b))
+    tb.start()
+    run_half("a", half_a)
+    tb.join()
+    results = [None] * len(cases)
+    for tag, idx in (("a", half_a), ("b", half_b)):
+        rc, out, err = outs[tag]
+        if rc != 0 or "@@JSON@@" not in out:
+            ctx.obligation("impl-run", False, err[-1500:])
+            ctx.violation("impl-run", "the implementation-side harness failed: " + (err.strip().splitlines() or ["?"])[-1][:200], {"stderr": err[-3000:]}, found_input=False)
+            return
+        for i, r in zip(idx, json.loads(out.split("@@JSON@@")[1])["results"]):
+            results[i] = r
     dist, margins, sizes = {}, [], []
     nmoves, nqueries, qerrors = 0, 0, set()
     for c, r in zip(cases, results):
         n = c["elem"]
         kind = c["kind"]
+        if kind == "grid":
+            c = dict(c, law="%s%s" % ("embedded" if c.get("embed") else "flat", "" if c.get("scale") is None else ":x%g" % c["scale"]))
         tag = "%s:%s:%s" % (kind, c.get("phys", "beam"), n) + (":dim%d:%s:%s" % (c["beamDim"], "timoshenko" if c["timo"] else "euler-bernoulli", c["orient"]) if kind == "beam" else ":" + c.get("law", ""))
         dist[tag.split(":")[0] + ":" + tag.split(":")[1]] = dist.get(tag.split(":")[0] + ":" + tag.split(":")[1], 0) + 1
         rep = {"replay_py": REPLAY % dict(case=json.dumps(c)), "case": c}
@@ -335,12 +406,15 @@ def run(ctx):
             nunk = r["n_interior"] * (r["dim"] if c["phys"] == "elastic" else 1)
             sizes.append(nunk)
             need = 25000 if r["dim"] == 2 else 50000
+            if c.get("assemble_only"):
+                tag += ":assemble-only"
+                nunk, need = r["Nn"] * (r["dim"] if c["phys"] == "elastic" else 1), 46341
             ctx.obligation("large mesh reaches the intended size (%s)" % tag, nunk > need, "%d unknowns" % nunk)
             if nunk <= need:
                 ctx.violation("large-mesh-size:" + tag, "generated large mesh has only %d unknowns (> %d intended): the size part of the quantifier is not exercised" % (nunk, need), {"case": c}, found_input=False)
         ctx.note_case(tag if r.get("n_interior", 0) > 0 else None)
         if kind == "beam":
-            worst = max(r["err"].values()) / r["scale"]
+            worst = max(r["err_rel"].values())
             wpost = max(list(r["post"].values()) + [0.0])
             margins.append(max(worst, wpost))
             ok = worst <= TOL and wpost <= TOL
@@ -351,7 +425,7 @@ def run(ctx):
             continue
         checks = [("interior nodes", r["err_u_interior"] / r["scale_u"])]
         pre = r.get("pre") or {}
-        size = 3.0
+        size = 1.0      # group_spread is relative to the coordinate magnitude
         for mvname, sp in pre.get("moves_log", []):
             okg = sp <= 1e-12 * size
             nmoves += 1
@@ -373,7 +447,11 @@ def run(ctx):
                        ("after read-only queries: mesh.coord changed", r["requery_coord_change"])]
         # the hypothesis of patch_equilibrium_partial, evaluated on this mesh
         checks.append(("residual K u_lin at interior dofs", r["residual_interior"] / r["residual_scale"]))
-        if c["phys"] == "elastic":
+        if "energy" in r:
+            checks.append(("u'Ku of the linear field vs thickness*measure*density", abs(r["energy"] - r["energy_exact"]) / abs(r["energy_exact"])))
+        if kind == "grid" and c.get("embed") and r.get("inDim") != 3:
+            checks.append(("embedded mesh must have inDim 3", float("inf")))
+        if c["phys"] == "elastic" and not r.get("assemble_only"):
             checks += [("strain components", r["err_strain_comp"] / r["scale_strain"]), ("stress components", r["err_stress_comp"] / r["scale_stress"]),
                        ("Result('Strain')", r["err_Strain_plain"] / r["scale_strain"] if r["err_Strain_plain"] is not None else float("inf")),
                        ("Result('Stress')", r["err_Stress_plain"] / r["scale_stress"] if r["err_Stress_plain"] is not None else float("inf")),
@@ -400,6 +478,11 @@ def run(ctx):
         ctx.violation("rule-inexact:" + ",".join(bad) if bad else "proof-broken:C01_rule.v",
                       "C01_rule.v no longer checks: the rule selected for stiffness integrals does not integrate every monomial of the _dN table exactly%s — on affine meshes the quadrature of int dN differs from the exact integral and the patch test cannot hold to round-off" % (
                           " for " + ", ".join(bad) if bad else ""), {"obligation": "C01_rule.v", "elements": bad, "log": rule_res["rule"].log[-2000:]}, found_input=False)
+    if "geo" in rule_res:
+        ctx.cov["rule_exact_for_all_vertex_positions"] = rule_res["geo_types"]
+        if not rule_res["geo"].ok:
+            ctx.violation("proof-broken:C01_rule_geo.v", "C01_rule_geo.v no longer checks: for some vertex-only element type the rule selected for stiffness integrals does not integrate every xi-monomial of (adj F grad N_i)_k exactly, so int_e dN_i/dx is not exact on non-affine straight-sided elements: " + ((rule_res["geo"].log.strip().splitlines() or ["?"])[-1][:200]),
+                          {"obligation": "C01_rule_geo.v", "log": rule_res["geo"].log[-2500:]}, found_input=False)
     if "hermite_error" in rule_res:
         ctx.violation("translate-hermite", "translator rejected the Hermite tables: " + rule_res["hermite_error"], {"construct": rule_res["hermite_error"]}, found_input=False)
     elif "hermite" in rule_res and not rule_res["hermite"].ok:
